@@ -94,8 +94,10 @@ func (fr *Frame) call(site ssa.Instruction, c *ssa.CallCommon, st *State) []Val 
 			ev := r.fr.evalCtx(st, r.fr.entry).with(binds)
 			if r.fr == fr {
 				ev.at = site.Block() // locals of the function are visible as they are at the call
+				fr.siteLimit = site
 			}
 			g := ev.evalBool(parse(r, r.text))
+			fr.siteLimit = nil
 			fc.oblige(st, "callsite", fr.path+"at:"+name+"/", g, fr.pos(site), "call-site condition for "+name+": "+r.text)
 		}
 	}
